@@ -3,6 +3,13 @@
 import json
 
 TEXTS = {
+ "C12": ("explicit-state breadth-first search over pool contents with a controllable pool (every history x every answer sync.Pool may give), plus stateless choice-sequence DFS over thread schedules and pool answers under a hand-written cooperative scheduler with an iterated deviation bound; auxiliary free-running -race pass",
+         "print.go's sync.Pool is replaced (build-time overlay) by a pool whose Get may return ANY pooled printer or a new one - the most general behaviour sync.Pool's contract allows - with the explorer owning the choice. (a) All histories of <=2 (quick) / <=3 (thorough) calls over a 35-call alphabet (every entry point and abnormal path: caught and propagating panics, %w capture and misuse, overrides, nested printers, leaked printers, >64KiB output, re-entrant Stringers) x every answer at every Get, de-duplicated on the dumped pool state; every call is a probe compared with its cold-pool result and every returned string is re-compared at the end (aliasing). (b) 2-3 threads x 1-2 calls under a cooperative scheduler with points at pool Get/Put, every buffer write and inside user methods; all executions with at most 0, 1, 2 deviations (preemptions + non-default pool answers). Every violation is replayed once more and must fail identically before it is reported.",
+         "Pool bounded at 3 objects. Interleavings are explored only at the scheduler's points; that nothing unsynchronised happens between them is only sampled by the separately built -race pass (16 free-running goroutines, real sync.Pool), which is auxiliary evidence and not part of the exhaustive claim. Cold-pool references are computed in the same process with an always-new pool.", "5/C12"),
+ "C17": ("exhaustive enumeration of three process-wide hook configurations x error values x positions x directives, differential against an equivalent SafeFormatter proxy and against the no-hook configuration",
+         "Configurations {no hook, rendering hook, panicking hook} x 9 error values (plain, wrapping, nil-receiver, +Stringer, +Formatter, errors.New, pointer receiver, +SafeFormatter, +SafeMessager) x 15 positions (top level, %w via HelperForErrorf, exported/unexported field, []error, []interface{}, map value, interface field, Safe, Unsafe, pointer, reflect.Value, array, nested, Unsafe(struct)) x quick (5k) / thorough (37k) directives: where dispatch happens the output must equal that of a SafeFormatter proxy doing exactly what the hook does (same verb, safe/unsafe calls honoured, nothing else printed); elsewhere it must equal the no-hook output; a panicking hook is contained like a panicking SafeFormat.",
+         "The hook is process-global; configurations are explored sequentially in one process and cleared through the public API.", "5/C17"),
+
  "C05": ("span-marking differential against fmt, bounded-exhaustive over leaves x classifications x shapes x directives x registry configurations",
          "On the fmt side every unsafe scalar leaf is replaced by a Formatter that brackets its rendering with marker bytes and forwards the active directive; deleting the bracketed spans (keeping line feeds) gives the expected text outside envelopes, without any hand-written format parser. Enumerated: ~50 leaf variants (12 scalars and a Stringer x unsafe / Safe() / SafeValue type / registered type / Unsafe(SafeValue), a SafeFormatter, nil) alone over the quick directive space, in ordered pairs inside 8 container shapes (incl. containers wrapped in Safe()) and as two top-level operands, under 2 (quick) / all 8 (thorough) registry configurations (registry reset through a hook).",
          "Directives are kept only when fmt reports no %! for the operands (the property says 'verbs valid for their operands'); []byte, complex and pointers are composites left to C02/C04.", "5/C05"),
@@ -51,7 +58,7 @@ TEXTS = {
          "The whole product 32 flag subsets x 8 widths x 6 precisions x 58 verbs is executed under fmt's State and redact's printer (Formatter and SafeFormatter entry); state after re-printing with the reproduced format must equal the original state; MakeFormat is compared with fmt.FormatString; Safe/Unsafe/forwarder fidelity under fmt for 19 operands x the product. Exhaustive in both tiers (quick thins widths/precisions for the operand product only).",
          "The reference is this sandbox's fmt (Go 1.23.5).", "5/C14"),
 }
-CLAIMED_IDS = ["C01", "C02", "C03", "C04", "C05", "C06", "C07", "C08", "C09", "C10", "C11", "C13", "C14", "C15", "C16"]
+CLAIMED_IDS = ["C01", "C02", "C03", "C04", "C05", "C06", "C07", "C08", "C09", "C10", "C11", "C12", "C13", "C14", "C15", "C16", "C17"]
 CLAIMED = {k: TEXTS[k] for k in CLAIMED_IDS}
 
 PENDING = {}
